@@ -342,16 +342,28 @@ func (a Float) M__pow__(other, modulus Object) (Object, error) {
 		return NotImplemented, nil
 	}
 	if b, ok := convertToFloat(other); ok {
-		return Float(math.Pow(float64(a), float64(b))), nil
+		return floatPow(a, b)
 	}
 	return NotImplemented, nil
 }
 
 func (a Float) M__rpow__(other Object) (Object, error) {
 	if b, ok := convertToFloat(other); ok {
-		return Float(math.Pow(float64(b), float64(a))), nil
+		return floatPow(b, a)
 	}
 	return NotImplemented, nil
+}
+
+// a ** b with python's error cases
+func floatPow(a, b Float) (Object, error) {
+	if a == 0 && b < 0 && !math.IsInf(float64(b), 0) {
+		return nil, ExceptionNewf(ZeroDivisionError, "0.0 cannot be raised to a negative power")
+	}
+	res := math.Pow(float64(a), float64(b))
+	if math.IsInf(res, 0) && !math.IsInf(float64(a), 0) && !math.IsInf(float64(b), 0) && a != 0 {
+		return nil, ExceptionNewf(OverflowError, "(34, 'Numerical result out of range')")
+	}
+	return Float(res), nil
 }
 
 func (a Float) M__ipow__(other, modulus Object) (Object, error) {
